@@ -8,6 +8,7 @@ import DnaModel.Model.Pattern
 import DnaModel.Model.Space
 import DnaModel.Model.TableSpec
 import DnaModel.Model.Builtin
+import DnaModel.Model.Report
 
 open Dna
 
@@ -533,6 +534,28 @@ def handleSpec (toks : List String) : Option String :=
     | _, _ => none
   | _ => none
 
+def floatPairs? : List String → Option (List (Float × Float))
+  | [] => some []
+  | a :: b :: rest => do
+    let a ← a.toNat?; let b ← b.toNat?
+    let r ← floatPairs? rest
+    pure ((Float.ofBits a.toUInt64, Float.ofBits b.toUInt64) :: r)
+  | _ => none
+
+def handleReport : List String → Option String
+  | ["report.edits", before, cur] =>
+    let p : Life := ⟨seqOf before, seqOf cur⟩
+    if p.before.length != p.cur.length then pure "ValueError" else
+    pure (s!"{p.numberOfEdits} | " ++ joinWith " " (p.editFeatures.map fun f =>
+      s!"{f.start}-{f.stop}:{seqStr f.labelBefore}=>{seqStr f.labelAfter}"))
+  | "report.summary" :: flags => do
+    let fl ← flags.mapM bool?
+    pure ((summaryOf fl).render.replace " " "_")
+  | "report.total" :: rest => do
+    let es ← floatPairs? rest
+    pure (toString (weightedTotal es).toBits)
+  | _ => none
+
 def handle (toks : List String) : String :=
   match toks with
   | [] => "bad-op"
@@ -544,6 +567,7 @@ def handle (toks : List String) : String :=
       else if cmd.startsWith "space." then handleSpace toks
       else if cmd.startsWith "choice." then handleChoice toks
       else if cmd.startsWith "solve." then handleSolve toks
+      else if cmd.startsWith "report." then handleReport toks
       else if cmd.startsWith "spec." || cmd.startsWith "tables." then handleSpec toks
       else none
     r.getD "bad-op"
